@@ -1,4 +1,5 @@
 (* C44 — transcript printer.  Case: diff <lhs tree bytes> <rhs tree bytes> <flag> (<id> <kind byte ++ data>)*
+   or reuse … (see run_model).
    kind byte 't' = tree object, anything else = some other object kind.
    Line: "ok" then one " K:..." item per recorded change in recording order, or "err <kind>".
    Mode "spec" prints Spec.tdiff (git's depth-first diff-tree -r -t) in git's raw output form. *)
@@ -41,9 +42,14 @@ Definition err_name (e : err) : bytes :=
 
 Definition big_fuel : nat := N.to_nat 100000.
 
+(* "reuse" cases: reuse <lhs1> <rhs1> <k> <lhs2> <rhs2> (<id> <obj>)*: a first diff that is cancelled at
+   the k-th visit (or fails) leaves pairs in State.trees; the second diff reuses that State.  diff()
+   begins with state.clear(), which resets the queue and change_id, so the second call is [diff] from
+   [init_st] on the second pair: that is what the model prints. *)
 Definition run_model (fs : list bytes) : bytes :=
-  let tbl := mk_odb (skipn 4 fs) in
-  match diff big_fuel (lookup tbl) (nth_field 1 fs) (nth_field 2 fs) with
+  let reuse := bytes_eqb (nth_field 0 fs) (bs "reuse") in
+  let tbl := mk_odb (skipn (if reuse then 6 else 4) fs) in
+  match diff big_fuel (lookup tbl) (nth_field (if reuse then 4 else 1) fs) (nth_field (if reuse then 5 else 2) fs) with
   | Ok cs => bs "ok" ++ concat (map show_change cs)
   | Err e => bs "err " ++ err_name e
   | Panic => bs "PANIC"
